@@ -2,7 +2,7 @@
     PARTIAL: "within one poll interval of the arrival" is a property of how quickly a blocked read
     wakes (Go runtime); measured exactly under the virtual clock, not proved. *)
 From Coq Require Import List ZArith Bool Lia.
-From TR Require Import Lib.Bytes Wire.Decode Drv.Drivers Spec.C01 Spec.C07 Proofs.DrvProofs Eng.Engine Eng.Timed Proofs.EngCorollaries Res.Doc.
+From TR Require Import Lib.Bytes Wire.Decode Drv.Drivers Spec.C01 Spec.C07 Proofs.DrvProofs Eng.Engine Eng.Timed Proofs.EngCorollaries Res.Doc Lib.GoLists Generated.GoHops Proofs.GoTieHops.
 Import ListNotations.
 Open Scope Z_scope.
 
@@ -35,3 +35,9 @@ Print Assumptions C05_first_accepted_kept.
 Theorem C05_e2e_rtt : forall r, dest_rtt r = match find hd_dest (rd_hops r) with Some h => hd_rtt h | None => 0 end.
 Proof. reflexivity. Qed.
 Print Assumptions C05_e2e_rtt.
+
+(** tie kind A: the hop's RTT is the accepted reply's RTT passed through ConvertDurationToMs and nothing else (the translated loop body of common.ToHops, with the unit conversion as its argument, is the model's [to_hops] when that argument is the identity) *)
+Theorem C05_ToHops_rtt_tied ps first : to_hops first ps = go_to_hops first 0 ps.
+Proof. exact (@go_ToHops_from_first ps first). Qed.
+Print Assumptions C05_ToHops_rtt_tied.
+
